@@ -639,6 +639,10 @@ class Interp:
                 if name in c.methods:
                     return BoundMethod(obj.obj, c.methods[name])
             return V.SymMethod(lambda interp, *a, **k: self.prims.external_super_call(self, obj.obj, obj.after, name, list(a), k))
+        if isinstance(obj, V.NamedPair):
+            r = obj.sym_getattr(self, name)
+            if r is not V.MISSING:
+                return r
         if isinstance(obj, (list, dict, set, tuple, str)):
             return PyMethod(obj, name)
         if isinstance(obj, ExcValue):
